@@ -64,10 +64,10 @@ def required(tier):
 def shards(tier, seed):
     q = tier == "quick"
     out = []
-    n_main = 6 if q else 10
+    n_main = 6 if q else 12
     for i in range(n_main):
         out.append({"mode": "main", "cfg": "default", "part": i, "parts": n_main,
-                    "reps": 24 if q else 400, "name": f"main-default-{i}"})
+                    "reps": 24 if q else 600, "name": f"main-default-{i}"})
     for cfg in ("force_ndarray", "force_ndarray_like"):
         n = 2 if q else 3
         for i in range(n):
@@ -129,6 +129,38 @@ def run_shard(spec, rec):
                            f"{f!r}, zero {zero!r} vs {off * f!r}, dims {d} vs {dims}")
                 return
             rec.count("unit_table_rows_verified")
+
+    for name, (f, off, dims) in T.ATOM.items():
+        try:
+            u = ureg.Unit(name)
+            got = Q(1.0, u).to_root_units().magnitude - Q(0.0, u).to_root_units().magnitude
+            d = {k: float(v) for k, v in dict(u.dimensionality).items()}
+        except Exception as e:  # noqa: BLE001
+            rec.inconc(f"own unit table: atom {name} not usable: {e!r}")
+            return
+        if abs(got - f) > 1e-12 * abs(f) or d != dims:
+            rec.inconc(f"own unit table disagrees with registry for atom {name}: {got!r} vs {f!r}")
+            return
+
+    def own_root(q):
+        """(root-unit magnitudes, dimensionality) of a result quantity by the check's own factor
+        table; None when the unit contains a name outside the table."""
+        uc = dict(q._units)
+        mag = np.asarray(q._magnitude, dtype=float)
+        if len(uc) == 1:
+            (n, e), = uc.items()
+            if n in T.ATOM and T.ATOM[n][1] != 0.0 and abs(float(e) - 1.0) < 1e-12:
+                f, off, dims = T.ATOM[n]
+                return (mag + off) * f, dict(dims)
+        factor, dims = 1.0, {}
+        for n, e in uc.items():
+            if n not in T.ATOM or T.ATOM[n][1] != 0.0:
+                return None
+            f, _, dm = T.ATOM[n]
+            factor *= f ** float(e)
+            for k, v in dm.items():
+                dims[k] = dims.get(k, 0.0) + v * float(e)
+        return mag * factor, {k: v for k, v in dims.items() if abs(v) > 1e-12}
 
     # -- coverage of pint's handled names by the table ---------------------------------------
     names = []
@@ -342,18 +374,35 @@ def run_shard(spec, rec):
                 if nonmult and (len(uc) > 1 or any(abs(float(v) - 1.0) > 1e-12 for v in uc.values())):
                     raise Mismatch("offset", f"result carries an offset unit inside a compound "
                                              f"unit: {got.units!r}")
-                try:
-                    r = got.to_root_units()
-                    d = {k: float(v) for k, v in dict(got.dimensionality).items()}
-                except OffErr as e:
-                    raise Mismatch("offset", f"result carries an offset unit in a compound unit: "
-                                             f"{got.units!r} ({e})")
+                own = own_root(got)
+                if own is not None:
+                    rmag, d = own
+                    if cfg in ("default", "autoconvert") and any(
+                            isinstance(v, np.integer) for v in uc.values()):
+                        # a NumPy integer as unit exponent: does the quantity still convert?
+                        try:
+                            pr = np.asarray(got.to_root_units().magnitude, dtype=float)
+                            bad = None if close(pr, rmag, 1e-9) else \
+                                f"to_root_units() gives {short(pr, 80)}, own factors {short(rmag, 80)}"
+                        except Exception as e:  # noqa: BLE001
+                            bad = f"to_root_units() raises {short(e, 120)}"
+                        if bad:
+                            raise Mismatch("unusable", "result unit has NumPy-integer exponents "
+                                                   f"({got.units!r}) and cannot be converted: {bad}")
+                else:
+                    rec.count("normalised_by_pint_fallback")
+                    try:
+                        rmag = np.asarray(got.to_root_units().magnitude)
+                        d = {k: float(v) for k, v in dict(got.dimensionality).items()}
+                    except OffErr as e:
+                        raise Mismatch("offset", f"result carries an offset unit in a compound "
+                                                 f"unit: {got.units!r} ({e})")
                 if not same_dims(d, want):
                     raise Mismatch("unit", f"result unit {got.units!r} has dimensionality {d}, "
                                            f"implied {want}")
                 if rspec.unit is not None and got.units != UNIT[rspec.unit]:
                     raise Mismatch("unit", f"result unit {got.units!r}, documented {rspec.unit}")
-                return [("q", np.asarray(r.magnitude), d)]
+                return [("q", np.asarray(rmag), d)]
             if isinstance(got, (tuple, list)) and any(isq(x) for x in got):
                 raise Mismatch("unit", f"expected one quantity, got a sequence: {short(got)}")
             if want:
@@ -572,10 +621,13 @@ def run_shard(spec, rec):
                 leaves = normalise(got, rspec, fams)
             except Mismatch as m:
                 rec.count("unit_checks")
-                rec.violation("result_unit" if m.clause == "unit" else "offset_not_refused",
+                mech = {"unit": "result_unit", "unusable": "result_unusable",
+                        "offset": "offset_not_refused"}[m.clause]
+                rec.violation(mech,
                               {"function": ent.name, "variant": label, "call": describe(call, a_),
                                "problem": m.msg, "got": short(got)},
-                              function=ent.name, kind=ent.kind, clause=m.clause, variant=label)
+                              function=ent.name, kind=ent.kind, variant=label,
+                              clause="unit" if m.clause == "unusable" else m.clause)
                 continue
             except Exception as e:  # noqa: BLE001
                 rec.violation("result_unusable",
